@@ -116,10 +116,34 @@ def common(run, modules):
     dok, dlog = R.lake_build(run, ["driver"])
     run.oblige("lake build driver (executable models used by the correspondence)", dok, dlog)
     if run.tier == "thorough" and ok:
+        # every module of the library the property's theorems rest on (transitive imports inside CacheVerif), not only
+        # the file that states them
+        closure = import_closure(modules + tie + WRAP.get(run.pid, []))
         with R.Lock("lake"):
-            rc, o, e = R.sh(["lake", "env", "leanchecker"] + modules, cwd=R.LEAN, timeout=3000)
-        run.oblige("leanchecker re-check of %s" % " ".join(modules), rc == 0, (o + e)[-2000:])
+            rc, o, e = R.sh(["lake", "env", "leanchecker"] + closure, cwd=R.LEAN, timeout=3000)
+        run.oblige("leanchecker re-check of %s and the %d library modules they import" % (" ".join(modules), len(closure) - len(modules)), rc == 0, (o + e)[-2000:])
     return dok
+
+
+def import_closure(mods):
+    """the modules of the library reachable from `mods` through `import CacheVerif.…` lines, `mods` first"""
+    seen, todo = [], list(mods)
+    while todo:
+        m = todo.pop(0)
+        if m in seen or not m.startswith("CacheVerif"):
+            continue
+        path = os.path.join(R.LEAN, *m.split(".")) + ".lean"
+        if not os.path.exists(path):
+            continue
+        seen.append(m)
+        for line in open(path):
+            line = line.strip()
+            if line.startswith("import CacheVerif"):
+                todo.append(line.split()[1])
+            elif line and not line.startswith(("import", "--", "/-")) and not line.startswith("set_option"):
+                if not line.startswith(("-", "#")) and "import" not in line:
+                    break
+    return seen
 
 
 def corpus(pid, kind):
